@@ -116,6 +116,15 @@ def fp_bits(model, f):
     return v.as_long()
 
 
+class CellRef:
+    """a `V: AsValue` stored in a user container: as_value() gives the cell's Value"""
+    persistent = True
+
+    def __init__(self, cell):
+        self.cell = cell
+        self.oid = next_oid()
+
+
 class SymArray:
     persistent = True
 
@@ -169,6 +178,16 @@ class SymDoc:
             opt = SymEnum('Option', z3.If(present, z3.BitVecVal(1, 64), z3.BitVecVal(0, 64)), {1: pl})
             self.uni.memo[('opt', id(cell))] = opt
         return opt
+
+    def hashmap_get(self, ex, key):
+        """the document seen as a std HashMap<String, V> (V: AsValue): get(key) -> Option<&V>"""
+        if not isinstance(key, (bytes, bytearray)):
+            raise ValueError('symbolic key')
+        present, cell = self.lookup(bytes(key))
+        ex.run.events.append(('get', self.path, bytes(key)))
+        if ex.branch(present):
+            return Adt('Option', 1, 'Some', [Ref(PCont([CellRef(cell)]), 0)])
+        return Adt('Option', 0, 'None', [])
 
     def get_symbolic(self, ex, key):
         """Object::get with a symbolic key: the object has the field names in
